@@ -54,7 +54,10 @@ var checks = []Check{
 		Technique: "bounded-exhaustive input enumeration (complete by induction over the CRC state)",
 		Rule:      "each evaluation is a distinct key; all are counted (the 2^24 three-byte keys cover every CRC state x next byte)",
 		Assumptions: []string{"Go compiler and runtime", "reference CRC16/XMODEM and hash-tag rule written from the Redis Cluster specification", "slot read through upstream.chooseHost over an identity slot table"},
-		Jobs:      []Job{{Pkg: "proc/redis", Scenarios: []string{"C12/slots"}, Shards: 1, QuickS: 120, ThoroughS: 600}},
+		Jobs: []Job{
+			{Pkg: "proc/redis", Scenarios: []string{"C12/slots"}, Shards: 1, QuickS: 120, ThoroughS: 600},
+			{Pkg: "proc/redis", Scenarios: []string{"C12/concurrent"}, Shards: 4, QuickS: 60, ThoroughS: 300},
+		},
 	},
 	{
 		ID: "C15", Title: "host set and health checking keep a consistent usable view", Level: "model_checking",
